@@ -56,6 +56,13 @@ func C14(e *Env) {
 	r.Rule("R14.9", "an import part is handed to Alias only behind a test that this very (sanitised) value is non-empty: the current package (\".\" → \"\") never reaches the alias table", 5)
 	statelessRule(e, "R14.3s", "internal/pkg/token", "internal/pkg/syntax", compilerRel, "internal/pkg/resolver")
 	r.Rule("R14.3s", "reference compilers keep no state between references (shared with R02.6): a qualified name written back into a factory would be qualified twice on its next use", 1)
+	mergeLiteralRule(e, "mergeMeta", "Meta")
+	r.Rule("R09.1", "the alias tables of several files are united key-wise with the later file winning (shared with C09)", 5)
+	r.Rule("R09.1c", "behaviour classes of the merge combinators (shared with C09)", 1)
+	formatGate(e, "R01.4")
+	r.Rule("R01.4", "every import entry that ends up unused is pruned: the formatter's result is exactly the output of imports.Process with pruning enabled, on every path (shared with C01)", 4)
+	aliasTableReadyRule(e, "R14.2b")
+	r.Rule("R14.2b", "the user's alias table is registered before the first local name is requested", 1)
 	r.NotCovered = append(r.NotCovered,
 		"which package a symbol finally comes from in the compiled output (needs the user's module)",
 		"first-use numbering of aliases")
